@@ -3,16 +3,18 @@ use proc_macro2::TokenStream;
 use quote::quote;
 use syn::DeriveInput;
 
-pub fn impl_(_ctx: &Context, input: &DeriveInput) -> TokenStream {
+pub fn impl_(ctx: &Context, input: &DeriveInput) -> TokenStream {
     let self_ident = &input.ident;
 
     let generic_params = generic::without_defaults(&input.generics).params;
     let generic_args = generic::args(&input.generics);
     let where_clause = generic::where_clause(input, quote! { ::flatty::Portable }, None);
+    // The tag is a part of the binary representation too.
+    let tag_bound = ctx.info.tag_type.as_ref().map(|tag_type| quote! { #tag_type: ::flatty::Portable, });
 
     quote! {
         unsafe impl<#generic_params> ::flatty::Portable for #self_ident<#generic_args>
-        #where_clause
+        #where_clause #tag_bound
         {
         }
     }
